@@ -490,3 +490,60 @@ func (t *c17Gated) StreamableRun(ctx context.Context, args string, opts ...tool.
 	}()
 	return sr, nil
 }
+
+type c17Silent struct{ c17Base }
+
+func (t *c17Silent) StreamableRun(ctx context.Context, args string, opts ...tool.Option) (*schema.StreamReader[string], error) {
+	return schema.StreamReaderFromArray([]string{}), nil
+}
+
+// a stream-only tool that emits no frame at all, next to a normal call: Invoke and Stream give the same verdict, and
+// when they succeed every call has its message
+func VerifC17SilentTool() {
+	ctx := context.Background()
+	vcfg("fifo", 1)
+	vcfg("selectfirst", 1)
+	b := &c17Behav{fail: map[string]int{}}
+	tn, err := NewToolNode(ctx, &ToolsNodeConfig{Tools: []tool.BaseTool{&c17Both{c17Base{"t0", b}}, &c17Silent{c17Base{"quiet", b}}}})
+	vassert(err == nil, "tools node is created")
+	msg := &schema.Message{Role: schema.Assistant, ToolCalls: []schema.ToolCall{
+		{ID: "id0", Function: schema.FunctionCall{Name: "t0", Arguments: "x"}},
+		{ID: "id1", Function: schema.FunctionCall{Name: "quiet", Arguments: "y"}}}}
+	ms, e0 := tn.Invoke(ctx, msg)
+	holes := 0
+	var e1 error
+	sr, e := tn.Stream(ctx, msg)
+	e1 = e
+	seen := make([]bool, 2)
+	if e == nil {
+		for k := 0; k < 8; k++ {
+			chunk, e := sr.Recv()
+			if e == io.EOF {
+				break
+			}
+			if e != nil {
+				e1 = e
+				break
+			}
+			for i, m := range chunk {
+				if m != nil {
+					seen[i] = true
+				}
+			}
+		}
+		sr.Close()
+		for _, s := range seen {
+			if !s {
+				holes++
+			}
+		}
+	}
+	vquiesce()
+	vassert((e0 == nil) == (e1 == nil), "a tool that emits no frame: Invoke and Stream both succeed or both fail")
+	if e0 == nil {
+		vassert(len(ms) == 2 && ms[1] != nil && ms[1].ToolCallID == "id1", "Invoke answers the silent call with a message carrying its id")
+	}
+	if e1 == nil {
+		vassert(holes == 0, "the streamed form has a message for every call, also for a tool that emitted no frame")
+	}
+}
